@@ -93,7 +93,7 @@ class C16(Prop):
                 op = rnd.choice(["add_class", "add_class", "remove_class", "remove_class", "has_class", "add_style"])
                 tok = rnd.choice(decls) if op == "add_style" else rnd.choice(toks)
                 hist.append({"op": op, "tok": cps(tok), "pre": rnd.random() < 0.5})
-            sty = rnd.choice([None, None, "q:1;", "k"])
+            sty = rnd.choice([None, None, "q:1;", "k", "", " ", "q:1; "])
             gens.append({"kind": "hist", "cls": {"p": init is not None, "t": cps(init or "")},
                          "sty": {"p": sty is not None, "t": cps(sty or "")}, "hist": hist})
         keys = ["a", "a_b", "aB", "AB", "a_B", "aBC", "ABc", "font_size", "backgroundColor", "x", "WebkitBoxFlex", "a__b", "_a", "a_"]
